@@ -187,9 +187,26 @@ def strip_comments(src):
     return "".join(out)
 
 
-def forbidden_tokens():
+def import_closure(targets):
+    """Lean source files (under lean/) reachable from the given modules through `import Eliot.*`."""
+    seen, todo = set(), list(targets)
+    while todo:
+        m = todo.pop()
+        if m in seen:
+            continue
+        seen.add(m)
+        p = LEAN / (m.replace(".", "/") + ".lean")
+        if not p.exists():
+            continue
+        for mm in re.finditer(r"^import\s+((?:Eliot|Driver)[\w.]*)", p.read_text(), re.M):
+            todo.append(mm.group(1))
+    return [LEAN / (m.replace(".", "/") + ".lean") for m in sorted(seen) if (LEAN / (m.replace(".", "/") + ".lean")).exists()]
+
+
+def forbidden_tokens(targets=None, extra_files=()):
     hits = []
-    for p in sorted(LEAN.glob("Eliot/**/*.lean")) + sorted(LEAN.glob("Driver/*.lean")):
+    files = import_closure(targets) if targets else sorted(LEAN.glob("Eliot/**/*.lean")) + sorted(LEAN.glob("Driver/*.lean"))
+    for p in list(files) + [LEAN / f for f in extra_files if (LEAN / f).exists()]:
         body = strip_comments(p.read_text())
         # string literals may legitimately contain words; drop them
         body = re.sub(r'"(?:\\.|[^"\\])*"', '""', body)
@@ -227,7 +244,7 @@ def lean_stage(ctx, mod):
     ctx.extra["build_ok"] = build_ok
     if not build_ok:
         ctx.extra["build_log"] = build_log
-    bad_tokens = forbidden_tokens()
+    bad_tokens = forbidden_tokens(targets + ([audit[:-5].replace('/', '.')] if audit else []), [d for d in getattr(mod, 'DRIVERS', [])])
     ctx.obligation("no-forbidden-tokens", "audit", not bad_tokens, "; ".join(bad_tokens[:5]))
     for name in expected:
         if not build_ok:
@@ -343,7 +360,18 @@ def write_evidence(ctx, mod, nviol):
     (EVIDENCE / ("%s.json" % ctx.prop)).write_text(json.dumps(ev, indent=1, sort_keys=True, default=str))
 
 
+def _restore_generated():
+    """A run against a scratch copy (ELIOT_REPO) rewrote lean/Eliot/Generated from that copy: put back /repo's."""
+    if str(REPO) != "/repo" and Path("/repo").exists():
+        from . import extract
+
+        with _Lock():
+            extract.regenerate(Path("/repo"), LEAN / "Eliot" / "Generated")
+
+
 def main(argv):
+    import atexit
+    atexit.register(_restore_generated)
     import argparse
 
     ap = argparse.ArgumentParser()
